@@ -13,7 +13,7 @@ CLAIMED.update({
  "C03": dict(level="exploration", technique="runtime differential monitoring against an independent MTProto 1.0 envelope/KDF implementation (both directions, every body length)",
    text="The library's Serialize output is opened by an independent reference server (x=0) and reference-sealed packets (x=8) are opened by the library, for every body length 0..N and boundary header values; any field, key id, msg_key or padding disagreement is a violation. Holds on the generated cases only.",
    note="trusted: ref/mtp (self-tested against OpenSSL IGE vectors and the core.telegram.org temp-key sample), crypto/aes, crypto/sha1", ref="6/C03"),
- "C04": dict(level="fault_enumeration", technique="fault enumeration at run time: every bit flip / truncation / re-keying / declared length of reference-sealed packets fed to the real parser under recover()",
+ "C04": dict(level="fault_enumeration", technique="fault enumeration at run time: every bit flip / truncation / re-keying / declared length of reference-sealed packets fed to the real parser under recover(); frame sequences through transport.ReadMsg on a loopback socket with every delivered message re-checked after later frames",
    text="For each valid packet the complete set of single-bit flips and truncation lengths, plus re-keying, garbage, parity and attacker-declared lengths, is fed to DeserializeEncrypted/DeserializeUnencrypted; the oracle allows refusal, or a message identical to what the key holder sealed, and nothing else; panics are violations.",
    note="trusted: ref/mtp; chance acceptance of a flipped packet that changes the message has probability 2^-128", ref="6/C04"),
  "C05": dict(level="exploration", technique="runtime differential monitoring against an independent AES-IGE / temp-key implementation via the verif-tag export of the block loop; buffer-aliasing monitor",
